@@ -419,6 +419,9 @@ type objSpec struct {
 	Kind string `json:"kind"`
 	Pad  int    `json:"pad"`
 	Dup  bool   `json:"dup,omitempty"` // byte-identical repetition of the previous object
+	// SameName: takes the metadata.name of the previous object, which is of another kind (an XRD
+	// and its Composition, a validating and a mutating webhook configuration ... named alike)
+	SameName bool `json:"sameName,omitempty"`
 }
 
 // content is the logical content of one package.yaml.
@@ -453,6 +456,9 @@ func (c *content) materialise(r *rand.Rand) error {
 			// names are made unique per position so that a swapped or lost object is visible
 			md := m["metadata"].(map[string]any)
 			md["name"] = fmt.Sprintf("n%d-%s", i, md["name"])
+			if o.SameName && prev != nil && prevK != nil && prevK.ID != k.ID {
+				md["name"] = prev["metadata"].(map[string]any)["name"]
+			}
 		}
 		prev, prevK = m, k
 		c.objMaps = append(c.objMaps, m)
@@ -619,6 +625,9 @@ func genValidContent(r *rand.Rand, g *golden, pkgType string, nObjs int, padMax 
 			pad = r.IntN(padMax)
 		}
 		c.Objs = append(c.Objs, objSpec{Kind: pick(r, al), Pad: pad})
+		if i > 0 && c.Objs[i].Kind != c.Objs[i-1].Kind && r.IntN(4) == 0 {
+			c.Objs[i].SameName = true
+		}
 	}
 	mk := g.Packages[pkgType].MetaKind
 	cs := pick(r, append(constraintsOf("met"), constraintsOf("none")...))
